@@ -840,7 +840,8 @@ fn process_incoming_text_message<T: Read + Write>(
                                             &fc.all_msgs,
                                             stream,
                                             command,
-                                            params.split_once(' ').unwrap().1,
+                                            // no params after the stream id leads to an err (invalid json):
+                                            params.split_once(' ').map_or("", |p| p.1),
                                         ) {
                                             websocket
                                                 .write_message(Message::Text(format!(
